@@ -213,6 +213,13 @@ def list_ops(L, intree, core_target=False):
   add('setitem', 'swap', f'{L}[0], {L}[1] = {L}[1], {L}[0]', True)
   add('setitem', 'same-node', f'{L}[0] = {L}[0]')
   add('setitem', 'sibling', f'{L}[0] = {L}[1]')
+  add('insert', 'own-child-same-index', f'{L}.insert(0, {L}[0])', True)
+  add('insert', 'own-child-other-index', f'{L}.insert(0, {L}[1])')
+  add('rebind-insert', 'own-child-same-index',
+      f'{L}.rebind({{0: pg.Insertion({L}[0])}})')
+  add('setitem-slice', 'own-child-twice', f'{L}[0:1] = [{L}[0], {L}[0]]')
+  add('extend', 'own-children', f'{L}.extend([{L}[0], {L}[1]])')
+  add('append', 'own-last-child', f'{L}.append({L}[-1])')
   add('use_value_spec', '', f'{L}.use_value_spec(pg.typing.List(pg.typing.Any()))')
   add('append@sealed', '',
       f'{L}.seal()\ntry: {L}.append(pg.Dict(z=1))\nfinally: {L}.seal(False)')
@@ -1070,7 +1077,7 @@ def _self_insertion_witness(setup, stmt):
           f'src = {src!r}\n'
           'env = dict(os.environ, PYTHONPATH=os.pathsep.join(p for p in sys.path if p))\n'
           'try:\n'
-          '  p = subprocess.run([sys.executable, "-c", src], env=env, capture_output=True, timeout=20)\n'
+          '  p = subprocess.run([sys.executable, "-c", src], env=env, capture_output=True, timeout=8)\n'
           'except subprocess.TimeoutExpired:\n'
           '  raise AssertionError("inserting a node below itself does not terminate")\n'
           'assert p.returncode == 0, p.stderr.decode()[-200:]\n')
